@@ -586,7 +586,7 @@ Section RoundTrip.
     /\ c_max (o_cfg o) < 4294967296 /\ c_min (o_cfg o) < 4294967296 /\ c_win (o_cfg o) < 4294967296
     /\ c_bits (o_cfg o) <= 30
     /\ 1 <= o_hashlen o /\ o_hashlen o <= 64
-    /\ (o_comp o = None \/ exists l, o_comp o = Some (E_CompressionType_BROTLI, l) /\ l < 4294967296)
+    /\ (o_comp o = None \/ exists t l, o_comp o = Some (t, l) /\ supported_compression t = true /\ l < 4294967296)
     /\ bytes_ok (o_version o) /\ utf8_valid (o_version o) = true
     /\ Forall (fun kv => bytes_ok (fst kv) /\ utf8_valid (fst kv) = true /\ bytes_ok (snd kv)) (o_meta o)
     /\ meta_sorted (o_meta o).
@@ -625,7 +625,9 @@ Section RoundTrip.
 
   Lemma comp_of_record : forall o, opts_ok o -> comp_of (comp_record (o_comp o)) = Ok (o_comp o).
   Proof.
-    intros o (_ & _ & _ & _ & _ & _ & _ & Hc & _). destruct Hc as [Hc|(l & Hc & _)]; rewrite Hc; reflexivity.
+    intros o (_ & _ & _ & _ & _ & _ & _ & Hc & _). destruct Hc as [Hc|(t & l & Hc & Ht & _)]; rewrite Hc; [reflexivity|].
+    unfold comp_of, comp_record. cbn [z_type z_level]. rewrite Ht.
+    destruct (N.eqb_spec t E_CompressionType_NONE) as [->|_]; [discriminate Ht|reflexivity].
   Qed.
 
   Lemma params_wf_of : forall o, opts_ok o -> params_wf (params_of (o_cfg o) (o_hashlen o)).
@@ -639,7 +641,11 @@ Section RoundTrip.
   Lemma comp_wf_of : forall o, opts_ok o -> comp_wf (comp_record (o_comp o)).
   Proof.
     intros o (_ & _ & _ & _ & _ & _ & _ & Hc & _). unfold comp_wf, u32.
-    destruct Hc as [Hc|(l & Hc & Hl)]; rewrite Hc; cbn [comp_record z_type z_level]; split; try lia; reflexivity.
+    destruct Hc as [Hc|(t & l & Hc & Ht & Hl)]; rewrite Hc; cbn [comp_record z_type z_level]; split; try lia; try reflexivity.
+    unfold supported_compression in Ht.
+    destruct (N.eqb_spec t E_CompressionType_BROTLI) as [->|_]; [reflexivity|].
+    destruct (N.eqb_spec t E_CompressionType_ZSTD) as [->|_]; [reflexivity|].
+    destruct (N.eqb_spec t E_CompressionType_LZMA) as [->|_]; [reflexivity|discriminate Ht].
   Qed.
 
   (* ---------- the descriptor table ---------- *)
@@ -1126,7 +1132,7 @@ Proof.
   { vm_compute in Em. apply rt_ok_inj in Em. subst bytes. vm_compute. reflexivity. }
   destruct (roundtrip rt_toyH comp decomp rt_toyH_len rt_toyH_bytes src o bytes) as (a & r & Ha & Hr & He & Hi & Hf).
   - unfold opts_ok. cbn. repeat split; try lia; try reflexivity.
-    + right. exists 6. split; [reflexivity|lia].
+    + right. exists E_CompressionType_BROTLI, 6. split; [reflexivity|split; [reflexivity|lia]].
     + constructor; [lia|constructor].
     + constructor; [|constructor]. cbn. repeat split; repeat constructor.
   - repeat constructor.
